@@ -48,6 +48,13 @@ def main(argv):
     ctx.checkpoint_prefix = out_prefix
     if sys.flags.optimize:
         ctx.count("shards-under-python-O")
+    if os.environ.get("VERIF_LOGGING") == "debug":
+        ctx.count("shards-with-DEBUG-logging-effective")
+    if os.environ.get("VERIF_WARNINGS") == "error":
+        import warnings
+        warnings.filterwarnings("error", module=r"jsonrpclib(\..*)?$")
+        ctx.count("shards-with-library-warnings-as-errors")
+    ctx.count("hash-seeds-used:" + os.environ.get("PYTHONHASHSEED", "?"))
     try:
         mod.run(ctx)
     except Exception as ex:  # harness failure: inconclusive, never green
